@@ -48,6 +48,9 @@ Cases ==
   \cup [g : {"changed"}, top : 1..3, change : {"edit", "remove", "create", "shadow", "unshadow"}, phase : 1..2]
   \* whitespace control inside the included file stops at the file's edges (and the includer's at the include tag)
   \cup [g : {"trimedge"}, top : 1..2, k : 1..5, where : {"disk", "cache"}]
+  \* one engine, two templates in different directories that include the same file ("../s/part.liq"), whose own
+  \* include ("leaf.liq") is resolved against the directory of the template being rendered
+  \cup [g : {"crossdir"}, where : {"disk", "cache"}, phase : 1..2]
   \cup [g : {"loop"}, top : 1..2]
   \cup [g : {"fail"}, top : 1..2, how : {"nonstring-int", "nonstring-nil", "nonstring-arr", "inner-error", "inner-syntax", "missing-nested"}]
 
@@ -61,8 +64,15 @@ IncArg(x) ==
 AssignW == [t |-> "assign", name |-> WW, e |-> Lit(S(<<87>>))]
 Inc(e) == [t |-> "include", e |-> e]
 
+UP_PART == <<46, 46, 47, 115, 47, 112, 46, 108, 105, 113>>         \* ../s/p.liq
+S_PART == <<115, 47, 112, 46, 108, 105, 113>>                       \* s/p.liq
+LEAF == <<108, 46, 108, 105, 113>>                                  \* l.liq
+TopOf(x) == IF x.g = "crossdir" THEN (IF x.phase = 1 THEN <<100, 47, 116, 46, 108, 105, 113>> ELSE <<101, 47, 116, 46, 108, 105, 113>>)
+            ELSE TOPS[x.top]
+CrossFiles == << <<S_PART, <<T(<<40>>), Inc(Lit(S(LEAF))), T(<<41>>)>> >>, <<<<100, 47>> \o LEAF, Body(DISK)>>, <<<<101, 47>> \o LEAF, Body(DECOY)>> >>
 ProgOf(x) ==
-  CASE x.g = "basic" ->
+  CASE x.g = "crossdir" -> <<T(<<60>>), AssignW, Inc(Lit(S(UP_PART))), T(<<62>>)>>
+    [] x.g = "basic" ->
          <<T(<<60>>), AssignW>> \o (IF x.arg = "assigned" THEN <<[t |-> "assign", name |-> <<109>>, e |-> Lit(S(RelOf(x)))]>> ELSE <<>>)
          \o <<Inc(IncArg(x)), T(<<62>>)>>
     [] x.g \in {"nested", "empty", "changed"} -> <<T(<<60>>), AssignW, Inc(Lit(S(F_LIQ))), T(<<62>>)>>
@@ -86,7 +96,8 @@ EdgeBody(k) ==
     [] k = 4 -> <<[t |-> "trimL"], Ob(Var(VV))>>                                                     \* {{- v }}
     [] k = 5 -> <<T(<<32, 10>>), Ob(Var(VV)), T(<<10, 32>>)>>                                        \* the includer's own hyphens: {%- include -%}
 FilesOf(x) ==
-  CASE x.g = "trimedge" -> IF x.where = "disk" THEN << <<Target(x), EdgeBody(x.k)>> >> ELSE <<>>
+  CASE x.g = "crossdir" -> IF x.where = "disk" THEN CrossFiles ELSE <<>>
+    [] x.g = "trimedge" -> IF x.where = "disk" THEN << <<Target(x), EdgeBody(x.k)>> >> ELSE <<>>
     [] x.g = "basic" ->
          (IF x.where \in {"disk", "both"} THEN << <<Target(x), Body(DISK)>> >> ELSE <<>>)
          \o (IF x.decoy /\ x.top > 1 THEN << <<RelOf(x), Body(DECOY)>> >> ELSE <<>>)
@@ -113,7 +124,8 @@ FilesOf(x) ==
             [] x.how = "missing-nested" -> << <<Target(x), <<Inc(Lit(S(G_LIQ)))>>>> >>
             [] OTHER -> << <<Target(x), Body(DISK)>> >>)
 CacheOf(x) ==
-  CASE x.g = "trimedge" -> IF x.where = "cache" THEN << <<Target(x), EdgeBody(x.k)>> >> ELSE <<>>
+  CASE x.g = "crossdir" -> IF x.where = "cache" THEN CrossFiles ELSE <<>>
+    [] x.g = "trimedge" -> IF x.where = "cache" THEN << <<Target(x), EdgeBody(x.k)>> >> ELSE <<>>
     [] x.g = "basic" -> IF x.where \in {"cache", "both"} THEN << <<Target(x), Body(CACHE)>> >> ELSE <<>>
     [] x.g = "nested" -> IF x.where = "cache" THEN << <<Target(x), <<T(<<40>>), Inc(Lit(S(G_LIQ))), T(<<41>>)>> >>,
                                                      <<JoinPath(DirOf(TOPS[x.top]), G_LIQ), Body(NEST)>> >> ELSE <<>>
@@ -126,7 +138,7 @@ CacheOf(x) ==
                            [] OTHER -> <<>>)
     [] OTHER -> <<>>
 
-Cx(x) == [Cx0 EXCEPT !.path = TOPS[x.top], !.fs = FilesOf(x), !.cache = CacheOf(x)]
+Cx(x) == [Cx0 EXCEPT !.path = TopOf(x), !.fs = FilesOf(x), !.cache = CacheOf(x)]
 Init == \E x \in Cases : c = x /\ st = InitSt(ProgOf(x), EnvOf(EnvOf2(x)), Sink0, Cx(x))
 Next == st.status = "run" /\ st' = Step(Cx(c), st) /\ c' = c
 
@@ -156,6 +168,8 @@ TrimStopsAtTheEdge == (c.g = "trimedge" /\ st.status # "run") =>
    st.status = "ok" /\ st.sink.acc = (IF c.k = 5 THEN <<97>> ELSE <<97, 32, 10>>)
                                      \o Render([Cx0 EXCEPT !.path = TOPS[c.top]], EdgeBody(c.k), EnvOf(EnvOf2(c))).out
                                      \o (IF c.k = 5 THEN <<98>> ELSE <<32, 10, 32, 98>>)
+CrossDirLaw == (c.g = "crossdir" /\ st.status # "run") =>
+   st.status = "ok" /\ st.sink.acc = <<60, 40, 91>> \o (IF c.phase = 1 THEN DISK ELSE DECOY) \o <<58, 86, 124, 87, 93, 41, 62>>
 FailuresFail == (c.g = "fail" /\ st.status # "run") => st.status = "error"
 \* the includer's variables are untouched by the include (it renders with a copy)
 IncluderEnvKept == \A j \in 1..Len(st.k) : (st.k[j].f = "seq" /\ st.k[j].end = "include") => Same(Lookup(st.k[j].aux, VV), Str(<<86>>)) \/ c.g = "loop"
@@ -164,12 +178,14 @@ IdOf(x) ==
   CASE x.g = "basic" -> "basic-" \o ToString(x.top) \o "-" \o x.rel \o "-" \o x.arg \o "-" \o x.where \o "-" \o ToString(x.decoy)
     [] x.g \in {"nested", "nestedsub", "empty"} -> x.g \o "-" \o ToString(x.top) \o "-" \o x.where
     [] x.g = "changed" -> "changed-" \o ToString(x.top) \o "-" \o x.change \o "-" \o ToString(x.phase)
+    [] x.g = "crossdir" -> "crossdir-" \o x.where \o "-" \o ToString(x.phase)
     [] x.g = "trimedge" -> "trimedge-" \o ToString(x.top) \o "-" \o ToString(x.k) \o "-" \o x.where
     [] x.g = "loop" -> "loop-" \o ToString(x.top)
     [] x.g = "fail" -> "fail-" \o ToString(x.top) \o "-" \o x.how
 \* (the second phase of a "changed" case is observed by the harness itself, after the first, on the same engine)
-EmitCase == (st.status # "run" /\ ~(c.g = "changed" /\ c.phase = 2)) =>
-  PrintT(ToJson([id |-> IdOf(c), kind |-> "render", prog |-> ProgOf(c), env |-> EnvOf2(c), path |-> TOPS[c.top],
+EmitCase == (st.status # "run" /\ ~(c.g \in {"changed", "crossdir"} /\ c.phase = 2)) =>
+  PrintT(ToJson([id |-> IdOf(c), kind |-> "render", prog |-> ProgOf(c), env |-> EnvOf2(c), path |-> TopOf(c),
                  files |-> FilesOf(c), cache |-> CacheOf(c), usedir |-> TRUE]
-                @@ (IF c.g = "changed" THEN [then |-> [id |-> IdOf([c EXCEPT !.phase = 2]), files |-> FilesOf([c EXCEPT !.phase = 2])]] ELSE <<>>)))
+                @@ (IF c.g = "changed" THEN [then |-> [id |-> IdOf([c EXCEPT !.phase = 2]), files |-> FilesOf([c EXCEPT !.phase = 2])]] ELSE <<>>)
+                @@ (IF c.g = "crossdir" THEN [then |-> [id |-> IdOf([c EXCEPT !.phase = 2]), path |-> TopOf([c EXCEPT !.phase = 2])]] ELSE <<>>)))
 =============================================================================
